@@ -53,12 +53,15 @@ def main():
             res = {"id": sid, "property": meta["property"], "checks": {}}
             for prop in meta.get("run_checks", [meta["property"]]):
                 env = dict(os.environ)
+                use_tier = meta.get("tier", tier)         # a change only the thorough tier can reach says so in meta.json
+                if "scale" in meta and use_tier != tier:
+                    env["VERIF_SCALE"] = str(meta["scale"])
                 env.update({"VERIF_REPO": tmp, "VERIF_EVIDENCE_DIR": os.path.join(tmp, "_evidence"),
                             "VERIF_REPLAY_DIR": os.path.join(tmp, "_replays")})
-                rc, out = run([os.path.join(HERE, "vf"), "check", prop, "--tier", tier], cwd=HERE, env=env)
+                rc, out = run([os.path.join(HERE, "vf"), "check", prop, "--tier", use_tier], cwd=HERE, env=env)
                 viol = [l for l in out.splitlines() if l.startswith("VIOLATION ")]
                 oracles = [l.strip().split(" ")[0] for l in out.splitlines() if l.strip().startswith("oracle=")]
-                res["checks"][prop] = {"exit": rc, "detected": bool(rc == 1 and viol), "oracles": oracles[:3]}
+                res["checks"][prop] = {"exit": rc, "detected": bool(rc == 1 and viol), "oracles": oracles[:3], "tier": use_tier}
             res["status"] = "DETECTED" if any(c["detected"] for c in res["checks"].values()) else "MISSED"
             results.append(res)
             print(json.dumps(res))
